@@ -15,6 +15,10 @@
   about `new` and the accessors. `black_white`, `gray_rgb_gray_roundtrip` and
   `gray_binary_threshold` are decided directly over (pairs x all gray values), again finite tables.
   `Nearest F T v out` is `|out - v*T/F| ≤ 1/2` multiplied out: `2*F*out ≤ 2*v*T + F ∧ 2*v*T ≤ 2*F*out + F`.
+
+  The bodies this model transcribes (`convert_channel`, `luma`, every conversion macro) are also REGENERATED
+  from the Rust text (tools/tr_colorsrc.py -> EG/Generated/ColorSrc.lean) and proved equal to the model in
+  EG/Props/C13/Generated.lean (`*_src_eq_model`, `apply_src_eq_model`; headline theorems restated as `src_*`).
 -/
 import EG.Lemmas.ColorLuma
 namespace EG.C13
